@@ -95,6 +95,46 @@ REDUCE = [
 ]
 
 
+def rule_infinity_by_y(ctx: Ctx, rep: Report) -> None:
+    """C01.infinity_by_y: the point at infinity is *any* affine pair with y = 0
+    -- `INF` is one spelling of it, `(x, 0)` for every x is the same point and
+    is what `require_on_curve` lets through -- so a caller's point is asked
+    `P[1] == 0` / `not P[1]`, never compared with the constant: an `(5, 0)`
+    that slips past `H == INF` reaches arithmetic (or the bindings, which
+    cannot express it) as if it were a finite point."""
+    rule = "C01.infinity_by_y"
+    n_tests = 0
+    for fi in sorted(ctx.prog.functions.values(), key=lambda f: f.qualname):
+        if not (fi.module.name.startswith("btclib.curves") or fi.module.name.startswith("btclib.ecc")):
+            continue
+        params = set(fi.params())
+        f = fi.parent
+        while f is not None:
+            params |= set(f.params())
+            f = f.parent
+        for c in own_nodes(fi.node):
+            if not isinstance(c, ast.Compare):
+                continue
+            sides = [c.left] + list(c.comparators)
+            flat = [x for sd in sides for x in (sd.elts if isinstance(sd, (ast.Tuple, ast.List, ast.Set)) else [sd])]
+            if not any(isinstance(x, ast.Name) and x.id in ("INF", "INFJ") for x in flat):
+                continue
+            n_tests += 1
+            hit = [x.id for x in flat if isinstance(x, ast.Name) and x.id in params]
+            rep.ob(rule, f"{fi.qualname}:{norm(c)}", not hit, fi.where(c),
+                   "compares a computed point (canonical by construction) with the constant" if not hit else
+                   f"the caller's point `{hit[0]}` is compared with the constant: ({hit[0]}[0], 0) for any other x is infinity too and passes as a finite point")
+    # and the guards that exist are on y: every function that branches on infinity of a parameter reads [1]
+    dm = ctx.func("btclib.curves.curve.double_mult_var")
+    g = ctx.cfg(dm)
+    calls = [c for c in own_nodes(dm.node) if isinstance(c, ast.Call) and call_name(c) == "_libsecp256k1_multi_mult"]
+    for c in calls:
+        facts = g.facts_at_ast(c)
+        ok = all(any(p and t == f"{pt}[1]" for t, p in facts) for pt in ("H", "Q"))
+        rep.ob(rule, "double_mult_var:delegation_guard", ok, dm.where(c), "the bindings are reached only with H[1] and Q[1] non-zero")
+    rep.floor(rule, 1)
+
+
 def rule_reduce(ctx: Ctx, rep: Report) -> None:
     """C01.reduce: the scalar handed to a multiplication is reduced mod the order."""
     rule = "C01.reduce"
@@ -208,6 +248,7 @@ def rule_sec_prefix(ctx: Ctx, rep: Report) -> None:
 
 RULES = [
     ("C01.on_curve", rule_on_curve),
+    ("C01.infinity_by_y", rule_infinity_by_y),
     ("C01.reduce", rule_reduce),
     ("C01.curve_ctor", rule_curve_ctor),
     ("C01.refuse_arith", rule_refuse_arith),
@@ -215,6 +256,9 @@ RULES = [
 ]
 
 CONTROLS = [
+    {"rule": "C01.infinity_by_y", "name": "double_mult_var asks for infinity by equality with INF", "module": "btclib.curves.curve",
+     "edit": lambda ctx: M.sub_expr(ctx, "btclib.curves.curve.double_mult_var", lambda n: isinstance(n, ast.BoolOp) and "H[1]" in norm(n) and "_libsecp256k1_serves" in norm(n),
+                                    "u and v and INF not in (H, Q) and _libsecp256k1_serves(ec, None)")},
     {"rule": "C01.on_curve", "name": "double_mult_var trusts H", "module": CV,
      "edit": lambda ctx: M.sub_expr(ctx, f"{CV}.double_mult_var", lambda n: isinstance(n, ast.Expr) and norm(n) == "ec.require_on_curve(H)", "pass")},
     {"rule": "C01.on_curve", "name": "multi_mult_var validates only the first point", "module": CV,
